@@ -5,7 +5,7 @@
   count it made is still an upper bound).  Preserved by every move of `CMove` whose side condition (`callowed`)
   holds; with it the bound `cnt' ≤ max cnt (size seen)` holds for every step.
 -/
-import Galaxy.Lemmas.C07Filter
+import Galaxy.Lemmas.C07Conf
 import Galaxy.Lemmas.PluginMain
 
 namespace Galaxy.PluginC07
@@ -13,17 +13,33 @@ open Galaxy Galaxy.Plugin
 
 /-! ### the moves the theorems quantify over -/
 
-/-- reload / restart / pod-IP sync are outside the property's quantifier ("filter, bind and pool-update requests");
-    a bind carries the `_partial` side condition `bindOK` -/
-def allowed (s : State) : Move7 → Bool
-  | .base (.reload _ _) => false
-  | .base .restart => false
-  | .base (.syncPodIPs _) => false
-  | .base (.bind ns name _ _ ch _ _) => bindOK s ns name ch
+/-- pool `P` is not a sized pool and nobody is working on it: no Pool object of that name exists (API truth) and no
+    pending action counts or allocates for it -/
+def poolIdle (cs : CState) (P : String) : Bool :=
+  (cs.base.poolObjs.get P).isNone && cs.pend.all (fun p => p.pool != P)
+
+/-- the pod the scheduler binds belongs to no sized pool (`poolIdle`) -/
+def bindUnsized (cs : CState) (ns name : String) : Bool :=
+  match cs.base.vPods.get (ns, name) with
+  | none => true
+  | some pod => poolIdle cs (keyOf pod).pool
+
+/-- side conditions of the atomic moves.  EVERY move of the plugin model is in the move set; four carry a condition:
+    * `bind`: the bind allocates nothing for a pod with a pool annotation (`bindOK`: the pod owns an address for every
+      request - what a Filter that saw the Pool object leaves behind, `filter_that_saw_pool_makes_bind_ok`), or the pod's
+      pool is not a sized pool at that moment (`bindUnsized`);
+    * `syncPodIPs`: the pass re-creates no record of a pool (`syncOK`);
+    * `reload`: every pool of the new configuration has a node subnet, and no store object orphaned by an earlier
+      reload belongs to a pool (`orphanFree`); `restart`: `orphanFree`. -/
+def allowed (cs : CState) : Move7 → Bool
+  | .base (.reload pools _) => wfPoolsB pools && orphanFree cs.base
+  | .base .restart => orphanFree cs.base
+  | .base (.syncPodIPs _) => syncOK cs.base
+  | .base (.bind ns name _ _ ch _ _) => bindOK cs.base ns name ch || bindUnsized cs ns name
   | _ => true
 
 def callowed (cs : CState) : CMove → Bool
-  | .plain m => allowed cs.base m
+  | .plain m => allowed cs m
   | _ => true
 
 theorem same_lock_key (P t n a : String) (hP : P ≠ "") :
@@ -33,77 +49,130 @@ theorem same_lock_key (P t n a : String) (hP : P ≠ "") :
 
 /-! ### one atomic core move -/
 
-theorem quiet_or {s s' : State} (q : Quiet7 s s') :
-    s'.pools = s.pools ∧ (Coherent s → Coherent s') ∧ ∀ P, P ≠ "" → cntp (mP P) s'.alloc ≤ cntp (mP P) s.alloc :=
-  ⟨q.pools, q.coh, q.cnt⟩
+/-- what one core move does to pool `P`: nothing or less; or one fresh member through the `getSubnet` of a pod of `P`
+    that established `FreshOK` (Filter, Preempt); or it is a bind for a pod of `P` while `P` is not a sized pool -/
+def Effect (cs : CState) (m : Move) (s' : State) (P : String) : Prop :=
+  cntp (mP P) s'.alloc ≤ cntp (mP P) cs.base.alloc ∨
+  (∃ pod, subnetPod cs.base m = some pod ∧ (keyOf pod).pool = P ∧ FreshOK cs.base pod ∧
+    cntp (mP P) s'.alloc ≤ cntp (mP P) cs.base.alloc + 1) ∨
+  (∃ ns name uid node ch f pf pod, m = .bind ns name uid node ch f pf ∧ Tbl.get cs.base.vPods (ns, name) = some pod ∧
+    (keyOf pod).pool = P ∧ poolIdle cs P = true)
 
-/-- an allowed core move other than Filter raises no pool's count -/
-theorem step_quiet (F : Plugin.Facts) (s : State) (m : Move) (ha : allowed s (.base m) = true)
-    (hnf : ∀ ns name nodes ch fault, m ≠ .filter ns name nodes ch fault) : Quiet7 s (step F s m).1 := by
+structure StepEff (cs : CState) (m : Move) (s' : State) : Prop where
+  wf : WFPools cs.base.pools → WFPools s'.pools
+  coh : Coherent s'
+  eff : ∀ P, P ≠ "" → Effect cs m s' P
+
+theorem StepEff.of_soft {cs : CState} {m : Move} {s' : State} (hc : Coherent cs.base) (q : Soft7 cs.base s') :
+    StepEff cs m s' :=
+  ⟨q.wf, q.coh hc, fun P hP => Or.inl (q.cnt hc P hP)⟩
+
+theorem StepEff.of_quiet {cs : CState} {m : Move} {s' : State} (hc : Coherent cs.base) (q : Quiet7 cs.base s') :
+    StepEff cs m s' := StepEff.of_soft hc q.soft
+
+/-- the effect of one allowed core move -/
+theorem stepB_effect (F : Plugin.Facts) (cs : CState) (m : Move) (hc : Coherent cs.base)
+    (ha : allowed cs (.base m) = true) : StepEff cs m (stepB Facts.good F cs.base m).1 := by
+  rw [stepB_good]
+  generalize hs : cs.base = s at hc
+  have ofq : ∀ s', Quiet7 s s' → StepEff cs m s' := fun s' q => StepEff.of_quiet (by rw [hs]; exact hc) (by rw [hs]; exact q)
+  have ofs : ∀ s', Soft7 s s' → StepEff cs m s' := fun s' q => StepEff.of_soft (by rw [hs]; exact hc) (by rw [hs]; exact q)
   cases m with
   | createPod ns name kind app pool policy ranges wants =>
-    dsimp only [step]; split <;> exact Quiet7.of_eq rfl rfl rfl rfl
-  | deletePod ns name => dsimp only [step]; split <;> exact Quiet7.of_eq rfl rfl rfl rfl
+    apply ofq; dsimp only [step]; split <;> exact Quiet7.of_eq rfl rfl rfl rfl
+  | deletePod ns name => apply ofq; dsimp only [step]; split <;> exact Quiet7.of_eq rfl rfl rfl rfl
   | finishPod ns name =>
-    dsimp only [step]
+    apply ofq; dsimp only [step]
     split
     · exact Quiet7.refl s
     · split <;> exact Quiet7.of_eq rfl rfl rfl rfl
   | runPod ns name =>
-    dsimp only [step]
+    apply ofq; dsimp only [step]
     split
     · exact Quiet7.refl s
     · split <;> exact Quiet7.of_eq rfl rfl rfl rfl
-  | scale kind ns app replicas => exact Quiet7.of_eq rfl rfl rfl rfl
-  | deleteApp kind ns app => exact Quiet7.of_eq rfl rfl rfl rfl
-  | setPool name size => dsimp only [step]; split <;> exact Quiet7.of_eq rfl rfl rfl rfl
+  | scale kind ns app replicas => exact ofq _ (Quiet7.of_eq rfl rfl rfl rfl)
+  | deleteApp kind ns app => exact ofq _ (Quiet7.of_eq rfl rfl rfl rfl)
+  | setPool name size => apply ofq; dsimp only [step]; split <;> exact Quiet7.of_eq rfl rfl rfl rfl
   | listerSync pods apps =>
-    dsimp only [step]
+    apply ofq; dsimp only [step]
     split <;> split <;> exact Quiet7.of_eq rfl rfl rfl rfl
-  | dropEvent i => dsimp only [step]; split <;> exact Quiet7.of_eq rfl rfl rfl rfl
-  | filter ns name nodes ch fault => exact absurd rfl (hnf ns name nodes ch fault)
+  | dropEvent i => apply ofq; dsimp only [step]; split <;> exact Quiet7.of_eq rfl rfl rfl rfl
+  | filter ns name nodes ch fault =>
+    have g := filter7_grow (withFaults s fault 0) ns name nodes ch
+    rw [filter7_good] at g
+    refine ⟨fun h => ?_, g.2.1 ((withFaults_q s fault 0).coh hc), fun P hP => ?_⟩
+    · show WFPools (Plugin.filter (withFaults s fault 0) ns name nodes ch).1.pools
+      rw [g.1]; rw [hs] at h; exact h
+    · rcases g.2.2 P hP with h | ⟨pod, h1, h2, h3, h4, h5⟩
+      · exact Or.inl (by rw [hs]; exact h)
+      · refine Or.inr (Or.inl ⟨pod, ?_, h3, by rw [hs]; exact h4, by rw [hs]; exact h5⟩)
+        rw [hs]
+        have h1' : Tbl.get s.pods (ns, name) = some pod := h1
+        simp [subnetPod, h1', h2]
+  | preempt ns name nodes ch fault =>
+    have g := preempt_grow (withFaults s fault 0) ns name nodes ch
+    refine ⟨fun h => ?_, g.2.1 ((withFaults_q s fault 0).coh hc), fun P hP => ?_⟩
+    · show WFPools (Plugin.preempt (withFaults s fault 0) ns name nodes ch).1.pools
+      rw [g.1]; rw [hs] at h; exact h
+    · rcases g.2.2 P hP with h | ⟨pod, h1, h2, h3, h4, h5⟩
+      · exact Or.inl (by rw [hs]; exact h)
+      · refine Or.inr (Or.inl ⟨pod, ?_, h3, by rw [hs]; exact h4, by rw [hs]; exact h5⟩)
+        rw [hs]
+        have h1' : Tbl.get s.pods (ns, name) = some pod := h1
+        simp [subnetPod, h1', h2]
   | bind ns name uid node ch fault pfault =>
-    have hok : bindOK (withFaults s fault pfault) ns name ch = true := ha
-    exact (withFaults_q s fault pfault).trans (bind_q F _ ns name uid node ch hok)
-  | deliver i fault pfault => exact (withFaults_q s fault pfault).trans (deliver_q F _ i)
-  | resync order fault pfault => exact (withFaults_q s fault pfault).trans (resync_q F _ order)
-  | syncPodIPs fault => simp [allowed] at ha
-  | apiRelease ip k fault pfault => exact (withFaults_q s fault pfault).trans (apiRelease_q F _ ip k)
-  | reload pools fault => simp [allowed] at ha
-  | restart => simp [allowed] at ha
-  | resyncSnap => exact Quiet7.of_eq rfl rfl rfl rfl
+    rcases Bool.or_eq_true_iff.mp ha with hok | hun
+    · rw [hs] at hok
+      have hok' : bindOK (withFaults s fault pfault) ns name ch = true := hok
+      exact ofq _ ((withFaults_q s fault pfault).trans (bind_q F _ ns name uid node ch rfl hok'))
+    · have q := bind_on F (withFaults s fault pfault) ns name uid node ch rfl
+        (fun P => ∀ pod, Tbl.get s.vPods (ns, name) = some pod → (keyOf pod).pool ≠ P)
+        (Or.inr (fun pod hpod P _ hS => hS pod hpod))
+      refine ⟨fun h => ?_, q.coh ((withFaults_q s fault pfault).coh hc), fun P hP => ?_⟩
+      · show WFPools (Plugin.bind F (withFaults s fault pfault) ns name uid node ch).1.pools
+        rw [q.pools]; rw [hs] at h; exact h
+      · by_cases hS : ∀ pod, Tbl.get s.vPods (ns, name) = some pod → (keyOf pod).pool ≠ P
+        · exact Or.inl (by rw [hs]; exact q.cnt P hP hS)
+        · have ⟨pod, hpod, hpool⟩ : ∃ pod, Tbl.get s.vPods (ns, name) = some pod ∧ (keyOf pod).pool = P := by
+            apply Classical.byContradiction
+            intro hn
+            exact hS (fun pod hpod e => hn ⟨pod, hpod, e⟩)
+          refine Or.inr (Or.inr ⟨ns, name, uid, node, ch, fault, pfault, pod, rfl, by rw [hs]; exact hpod, hpool, ?_⟩)
+          unfold bindUnsized at hun
+          rw [hs, hpod] at hun
+          rw [← hpool]; exact hun
+  | deliver i fault pfault => exact ofq _ ((withFaults_q s fault pfault).trans (deliver_q F _ i))
+  | resync order fault pfault => exact ofq _ ((withFaults_q s fault pfault).trans (resync_q F _ order))
+  | adminReserve ip text policy => exact ofq _ (adminReserve_q F s ip text policy)
+  | adminUnreserve ip => exact ofq _ (adminUnreserve_q F s ip)
+  | syncPodIPs fault =>
+    have h : syncOK (withFaults s fault 0) = true := by rw [← hs]; exact ha
+    exact ofq _ ((withFaults_q s fault 0).trans (syncPodIPs_q _ h))
+  | apiRelease ip k fault pfault => exact ofq _ ((withFaults_q s fault pfault).trans (apiRelease_q F _ ip k))
+  | reload pools fault =>
+    obtain ⟨h1, h2⟩ := Bool.and_eq_true_iff.mp ha
+    have h2' : orphanFree (withFaults s fault 0) = true := by rw [← hs]; exact h2
+    exact ofs _ ((withFaults_q s fault 0).soft.trans (reload_soft _ pools h1 h2'))
+  | restart =>
+    have h2' : orphanFree (withFaults s 0 0) = true := by rw [← hs]; exact ha
+    exact ofs _ ((withFaults_q s 0 0).soft.trans (restart_soft _ h2'))
+  | resyncSnap => exact ofq _ (Quiet7.of_eq rfl rfl rfl rfl)
   | resyncRec ip fault pfault =>
+    apply ofq
     dsimp only [step]
     split
     · exact Quiet7.refl s
-    · exact ((withFaults_q s fault pfault).trans (resyncOne_q F _ ip _)).trans (Quiet7.of_eq rfl rfl rfl rfl)
+    · split
+      · exact Quiet7.refl s
+      · exact ((withFaults_q s fault pfault).trans (resyncOne_q F _ ip _)).trans (Quiet7.of_eq rfl rfl rfl rfl)
 
-/-- the effect of one allowed core move on configuration, coherence and pool counts -/
-theorem nextB_effect (F : Plugin.Facts) (s : State) (m : Move) (ha : allowed s (.base m) = true) :
-    (nextB Facts.good F s m).pools = s.pools ∧ (Coherent s → Coherent (nextB Facts.good F s m)) ∧
-    ∀ P, P ≠ "" → cntp (mP P) (nextB Facts.good F s m).alloc ≤ cntp (mP P) s.alloc ∨
-      (∃ ns name nodes ch fault pod, m = .filter ns name nodes ch fault ∧ Tbl.get s.pods (ns, name) = some pod ∧
-        pod.wants = true ∧ (keyOf pod).pool = P ∧ FreshOK s pod ∧
-        cntp (mP P) (nextB Facts.good F s m).alloc ≤ cntp (mP P) s.alloc + 1) := by
-  by_cases hf : ∃ ns name nodes ch fault, m = .filter ns name nodes ch fault
-  · obtain ⟨ns, name, nodes, ch, fault, rfl⟩ := hf
-    have g := filter7_grow (withFaults s fault 0) ns name nodes ch
-    dsimp only [nextB, stepB]
-    split
-    · exact ⟨rfl, fun h => h, fun P _ => Or.inl (Nat.le_refl _)⟩
-    · refine ⟨g.1, fun h => g.2.1 ((withFaults_q s fault 0).coh h), fun P hP => ?_⟩
-      rcases g.2.2 P hP with h | ⟨pod, h1, h2, h3, h4, h5⟩
-      · exact Or.inl h
-      · exact Or.inr ⟨ns, name, nodes, ch, fault, pod, rfl, h1, h2, h3, h4, h5⟩
-  · have hnf : ∀ ns name nodes ch fault, m ≠ .filter ns name nodes ch fault :=
-      fun ns name nodes ch fault e => hf ⟨ns, name, nodes, ch, fault, e⟩
-    have q := step_quiet F s m ha hnf
-    have hs : stepB Facts.good F s m = step F s m := stepB_good F s m
-    unfold nextB
-    rw [hs]
-    split
-    · exact ⟨rfl, fun h => h, fun P _ => Or.inl (Nat.le_refl _)⟩
-    · exact ⟨q.pools, q.coh, fun P hP => Or.inl (q.cnt P hP)⟩
+theorem nextB_effect (F : Plugin.Facts) (cs : CState) (m : Move) (hc : Coherent cs.base)
+    (ha : allowed cs (.base m) = true) : StepEff cs m (nextB Facts.good F cs.base m) := by
+  unfold nextB
+  split
+  · exact StepEff.of_quiet hc (Quiet7.refl _)
+  · exact stepB_effect F cs m hc ha
 
 /-! ### pending actions -/
 
@@ -276,25 +345,26 @@ theorem cstep_inv (F : Plugin.Facts) (cs : CState) (cm : CMove) (h : CInv cs) (h
     · rw [if_pos hf]
       cases m with
       | base mv =>
-        have e := nextB_effect F cs.base mv ha
-        refine ⟨e.2.1 h.coh, ?_, h.lockOf, h.excl, fun p hp => ?_⟩
-        · show WFPools (nextB Facts.good F cs.base mv).pools
-          rw [e.1]; exact h.wf
-        · by_cases hr : risky p = true
-          · apply budget_mono _ _ p (h.budget p hp)
-            obtain ⟨hpne, hlock⟩ := h.lockOf p hp hr
-            rcases e.2.2 p.pool hpne with hle | ⟨ns, name, nodes, ch, fault, pod, rfl, hg, hw, hpool, hfresh, _⟩
-            · exact hle
-            · exfalso
-              have hl : lockOfMove Facts.good cs.base (.base (.filter ns name nodes ch fault)) =
-                  some (Generated.C07.apiLockKey p.pool) := by
-                dsimp only [lockOfMove]
-                rw [hg]
-                simp only [hw, ↓reduceIte]
-                rw [filterLockOf_dp pod hfresh.1 hfresh.2.1, hpool]
-              rw [hl] at hf
-              exact held_not_free cs p hp _ hlock hf
-          · exact budget_of_not_risky _ p (by simpa using hr)
+        have e := nextB_effect F cs mv h.coh ha
+        refine ⟨e.coh, e.wf h.wf, h.lockOf, h.excl, fun p hp => ?_⟩
+        by_cases hr : risky p = true
+        · apply budget_mono _ _ p (h.budget p hp)
+          obtain ⟨hpne, hlock⟩ := h.lockOf p hp hr
+          rcases e.eff p.pool hpne with hle | ⟨pod, hsp, hpool, hfresh, _⟩ | ⟨_, _, _, _, _, _, _, _, _, _, _, hidle⟩
+          · exact hle
+          · exfalso
+            have hl : lockOfMove Facts.good cs.base (.base mv) = some (Generated.C07.apiLockKey p.pool) := by
+              dsimp only [lockOfMove]
+              rw [hsp]
+              dsimp only
+              rw [filterLockOf_dp pod hfresh.1 hfresh.2.1, hpool]
+            rw [hl] at hf
+            exact held_not_free cs p hp _ hlock hf
+          · exfalso
+            unfold poolIdle at hidle
+            have := List.all_eq_true.mp (Bool.and_eq_true_iff.mp hidle).2 p hp
+            simp at this
+        · exact budget_of_not_risky _ p (by simpa using hr)
       | apiPool name size pre order picks fault =>
         have g := apiPool_grow cs.base name size pre order picks fault
         refine ⟨g.coh h.coh, ?_, h.lockOf, h.excl, fun p hp => ?_⟩
@@ -459,8 +529,8 @@ theorem cstep_inv (F : Plugin.Facts) (cs : CState) (cm : CMove) (h : CInv cs) (h
 /-- the size in force for a step on pool `P`: what the Filter read from its Pool lister, what the pool API request
     carries, what the pending action read when it counted; 0 for every step that must not add members at all -/
 def sizeSeen (cs : CState) : CMove → String → Nat
-  | .plain (.base (.filter ns name _ _ _)), P =>
-    match cs.base.pods.get (ns, name) with
+  | .plain (.base m), P =>
+    match subnetPod cs.base m with
     | some pod => if (keyOf pod).pool = P then (seenSize cs.base pod).getD 0 else 0
     | none => 0
   | .plain (.apiPool name size pre _ _ _), P => if name = P ∧ pre = true then size else 0
@@ -469,6 +539,15 @@ def sizeSeen (cs : CState) : CMove → String → Nat
     | some p => if p.pool = P then psize p else 0
     | none => 0
   | _, _ => 0
+
+/-- the step is a bind for a pod of pool `P` while `P` is not a sized pool: no Pool object named `P` exists and no
+    action is pending on `P` (the property speaks of sized pools) -/
+def unsizedBind (cs : CState) : CMove → String → Bool
+  | .plain (.base (.bind ns name _ _ _ _ _)), P =>
+    match cs.base.vPods.get (ns, name) with
+    | some pod => (keyOf pod).pool == P && poolIdle cs P
+    | none => false
+  | _, _ => false
 
 theorem finish_effect (F : Plugin.Facts) (cs : CState) (j : Nat) (order : List Subnet) (picks : List IP) (p : Pending)
     (hj : cs.pend[j]? = some p) :
@@ -538,7 +617,8 @@ theorem budget_bound (s : State) (p : Pending) (P : String) (hb : Budget s p) (h
 
 theorem cstep_bound (F : Plugin.Facts) (cs : CState) (cm : CMove) (h : CInv cs) (ha : callowed cs cm = true)
     (P : String) (hP : P ≠ "") :
-    cnt (cstep Facts.good F cs cm).base P ≤ max (cnt cs.base P) (sizeSeen cs cm P) := by
+    unsizedBind cs cm P = true ∨
+      cnt (cstep Facts.good F cs cm).base P ≤ max (cnt cs.base P) (sizeSeen cs cm P) := by
   rw [cnt_eq _ P hP, cnt_eq _ P hP]
   cases cm with
   | plain m =>
@@ -547,19 +627,25 @@ theorem cstep_bound (F : Plugin.Facts) (cs : CState) (cm : CMove) (h : CInv cs) 
     · rw [if_pos hf]
       cases m with
       | base mv =>
-        have e := nextB_effect F cs.base mv ha
-        rcases e.2.2 P hP with hle | ⟨ns, name, nodes, ch, fault, pod, rfl, hg, hw, hpool, hfresh, hle⟩
-        · exact Nat.le_trans hle (Nat.le_max_left _ _)
-        · obtain ⟨z, hz, hb⟩ := seenSize_of_fresh cs.base pod hfresh
+        have e := nextB_effect F cs mv h.coh ha
+        rcases e.eff P hP with hle | ⟨pod, hsp, hpool, hfresh, hle⟩ | ⟨ns, name, uid, node, ch, f, pf, pod, rfl, hv, hpool, hidle⟩
+        · exact Or.inr (Nat.le_trans hle (Nat.le_max_left _ _))
+        · right
+          obtain ⟨z, hz, hb⟩ := seenSize_of_fresh cs.base pod hfresh
           have hb' := hb (routable_of_coherent _ h.coh h.wf)
           rw [hpool, cnt_eq _ P hP] at hb'
-          have hs : sizeSeen cs (.plain (.base (.filter ns name nodes ch fault))) P = z := by
+          have hs : sizeSeen cs (.plain (.base mv)) P = z := by
             dsimp only [sizeSeen]
-            rw [hg]
+            rw [hsp]
             simp [hpool, hz]
           rw [hs]
           exact Nat.le_trans (Nat.le_trans hle hb') (Nat.le_max_right _ _)
+        · left
+          dsimp only [unsizedBind]
+          rw [hv]
+          simp [hpool, hidle]
       | apiPool name size pre order picks fault =>
+        right
         have g := apiPool_grow cs.base name size pre order picks fault
         have hc := g.cnt P hP
         dsimp only [sizeSeen]
@@ -569,7 +655,7 @@ theorem cstep_bound (F : Plugin.Facts) (cs : CState) (cm : CMove) (h : CInv cs) 
           omega
         · simp only [hn, ↓reduceIte, Nat.add_zero] at hc ⊢
           omega
-    · rw [if_neg hf]; exact Nat.le_max_left _ _
+    · rw [if_neg hf]; exact Or.inr (Nat.le_max_left _ _)
   | filterBegin ns name nodes ch =>
     have hb : (cstep Facts.good F cs (.filterBegin ns name nodes ch)).base = cs.base := by
       dsimp only [cstep]
@@ -578,41 +664,38 @@ theorem cstep_bound (F : Plugin.Facts) (cs : CState) (cm : CMove) (h : CInv cs) 
       · split
         · rfl
         · split <;> rfl
-    rw [hb]; exact Nat.le_max_left _ _
+    rw [hb]; exact Or.inr (Nat.le_max_left _ _)
   | preBegin name size =>
     have hb : (cstep Facts.good F cs (.preBegin name size)).base.alloc = cs.base.alloc := by
       dsimp only [cstep]
       split
       · rfl
       · split <;> rfl
-    rw [hb]; exact Nat.le_max_left _ _
+    rw [hb]; exact Or.inr (Nat.le_max_left _ _)
   | finish j order picks =>
     cases hj : cs.pend[j]? with
     | none =>
       have hb : (cstep Facts.good F cs (.finish j order picks)).base = cs.base := by
         dsimp only [cstep]; rw [hj]
-      rw [hb]; exact Nat.le_max_left _ _
+      rw [hb]; exact Or.inr (Nat.le_max_left _ _)
     | some p =>
       rcases finish_effect F cs j order picks p hj with hb | g
-      · rw [hb]; exact Nat.le_max_left _ _
+      · rw [hb]; exact Or.inr (Nat.le_max_left _ _)
       · have hc := g.cnt P hP
         by_cases hg : gain p P = 0
-        · rw [hg] at hc; exact Nat.le_trans hc (Nat.le_max_left _ _)
+        · rw [hg] at hc; exact Or.inr (Nat.le_trans hc (Nat.le_max_left _ _))
         · have hpm : p ∈ cs.pend := List.mem_of_getElem? hj
           obtain ⟨hpool, hle⟩ := budget_bound cs.base p P (h.budget p hpm) hg
           have hs : sizeSeen cs (.finish j order picks) P = psize p := by
             dsimp only [sizeSeen]; rw [hj]; simp [hpool]
           rw [hs]
-          exact Nat.le_trans (Nat.le_trans hc hle) (Nat.le_max_right _ _)
+          exact Or.inr (Nat.le_trans (Nat.le_trans hc hle) (Nat.le_max_right _ _))
 
 /-! ### all histories -/
 
 def callAllowed (G : Facts) (F : Plugin.Facts) : CState → List CMove → Bool
   | _, [] => true
   | cs, m :: t => callowed cs m && callAllowed G F (cstep G F cs m) t
-
-theorem wfPools_sort (ps : List Pool) (h : WFPools ps) : WFPools (sortPools ps) :=
-  fun p hp => h p ((mem_sortPools p ps).mp hp)
 
 theorem cinv_init (c : Conf) (hwf : WFPools c.pools) : CInv (cinit c) := by
   refine ⟨(inv_init c).coh, wfPools_sort _ hwf, ?_, List.Pairwise.nil, ?_⟩
